@@ -7,11 +7,11 @@ PROP = "C18"
 RULE = ("cases = raw HTTP/1.1 requests (GET/POST/OPTIONS/HEAD/PUT/DELETE; with/without Origin, Access-Control-Request-Method, Access-Control-Request-Headers) against "
         "`samply load <profile> --no-open -P <port>+` servers (plain and .gz profile, several runs): paths without the token, the token path and its API/profile children, "
         "proper prefixes and extensions of the token, case variants, percent-encodings, //, /./, /x/../ decorations, the token in the query string or after another segment. "
-        "Observed: status, Access-Control-* / Allow / Content-Encoding headers, body class (empty / landing page / profile bytes / API JSON). Tokens of all runs: 39 chars of the nix-base32 alphabet, pairwise distinct. "
+        "Observed: status, Access-Control-* / Allow / Content-Encoding headers, body class (empty / landing page / profile bytes / API JSON). Tokens of all runs, and of 2 x 4 further servers started at the same moment (same clock second, neighbouring pids): 39 chars of the nix-base32 alphabet, pairwise distinct. "
         "One evaluation = one server run (several hundred requests); non-trivial = the run contained requests whose path mentions the token (or a variant of it) without being served")
 TRUSTED = ["hyper's request parsing: req.uri().path() is the raw path before '?' (requests hyper rejects with 400 are judged by the property only)",
            "`samply load` always serves a profile, so the model's has_profile = false branch is proved but not exercised",
-           "unpredictability of the token (rand::rng()) cannot be proved; only length, alphabet and distinctness across runs are observed"]
+           "unpredictability of the token cannot be proved; observed: length, alphabet, distinctness across runs including simultaneously started ones; translated from the source: the 24 bytes are filled by rand::rng().fill_bytes (c_token_from_os_rng)"]
 ASSUMPTIONS = ["the landing page served without the prefix embeds the token by design (it is served without CORS headers, which is what the property requires)"]
 
 METHODS = ["GET", "POST", "OPTIONS", "HEAD", "PUT", "DELETE"]
@@ -147,6 +147,33 @@ def _paths(tok):
             T + "/profile.json/", T + "/PROFILE.JSON", T + "//profile.json", T + "/./profile.json", T + "/../profile.json", "*"]
 
 
+def _simultaneous_tokens(samply, profile, n, port_base):
+    """start n servers at the same moment (same clock second, consecutive pids) and return their tokens"""
+    procs = [subprocess.Popen([samply, "load", profile, "--no-open", "-P", "%d+" % (port_base + 40 * i)], stdout=subprocess.PIPE, stderr=subprocess.DEVNULL, text=True)
+             for i in range(n)]
+    toks = []
+    try:
+        for pr in procs:
+            t0 = time.time()
+            line = ""
+            while time.time() - t0 < 30:
+                line = pr.stdout.readline()
+                if line.startswith("http") or (line == "" and pr.poll() is not None):
+                    break
+            m = re.search(r"symbolServer=([^&\s]+)", line)
+            if not m:
+                raise K.TieBroken("could not parse the server URL from samply's output: %r" % line)
+            toks.append(urllib.parse.urlparse(urllib.parse.unquote(m.group(1))).path.lstrip("/"))
+    finally:
+        for pr in procs:
+            try:
+                pr.send_signal(signal.SIGINT)
+                pr.wait(timeout=5)
+            except Exception:
+                pr.kill()
+    return toks
+
+
 def gen(tier, rng, scale):
     # the concrete requests depend on the per-run token, so they are produced inside evaluate(); gen only fixes the plan
     quick = tier == "quick"
@@ -220,9 +247,15 @@ def evaluate(cases):
             c["_requests"] = len(flat)
             c["_bad"] = [dd for dd, v in zip(descr, flat) if v % 10 == worst and worst in (1, 2)][:5]
             verdicts.append(10 + worst)
-        if len(set(tokens)) != len(tokens):
+        # "freshly random for every run": servers started at the same moment (same clock second, neighbouring pids) must not share a token either
+        simul = []
+        for rnd in range(2):
+            simul += _simultaneous_tokens(samply, pj, 4, 5200 + (os.getpid() * 11 + rnd * 170) % 600)
+        dist["simultaneous_starts"] = len(simul)
+        alltok = tokens + simul
+        if len(set(alltok)) != len(alltok):
             verdicts[0] = 12
-            cases[0]["_bad"] = ["tokens repeated across runs"]
+            cases[0]["_bad"] = ["tokens repeated across runs (%d runs, %d started simultaneously in groups of 4): %r" % (len(alltok), len(simul), sorted(t for t in set(alltok) if alltok.count(t) > 1)[:3])]
     finally:
         shutil.rmtree(d, ignore_errors=True)
     _last.update({"dist": dist, "samples": samples, "tokens": len(tokens)})
